@@ -1,6 +1,7 @@
 (** C03 - range and prefix scans are exact, ordered and consistent from both ends. *)
 From LsmV Require Import Model.Tree Model.Range Model.Prefix Model.Cert
      Proofs.Newest Proofs.Lookup Proofs.Cert Proofs.Range Proofs.Prefix.
+From LsmV Require Model.BlockIndex Proofs.BlockIndex.
 Open Scope N_scope.
 
 (** (1) For every structurally sound superversion, every pair of bounds (inclusive,
@@ -77,3 +78,16 @@ Example C03_nonvacuous :
   check_inv_sv RangeExamples.sv_ex = true /\
   (forall e, In e (content RangeExamples.sv_ex) -> seq e < MAX_SEQNO).
 Proof. split; [exact RangeExamples.sv_ex_inv | exact RangeExamples.sv_ex_seqs]. Qed.
+
+(** (10) one level down: the ranged, double-ended TABLE iterator (table/iter.rs) over a table
+    stored as data blocks + block index (any cut into non-empty blocks, full / volatile /
+    two-level index) yields, for every next/next_back interleaving, the deque over the table's
+    entries within the bounds - the sorted list the pipeline theorem above starts from *)
+Theorem C03_table_iter_over_blocks :
+  forall (bt : LsmV.Model.BlockIndex.btable) (lo hi : bound) (code : list bool),
+    LsmV.Proofs.BlockIndex.btable_wf bt ->
+    LsmV.Proofs.BlockIndex.range_valid_for (LsmV.Model.BlockIndex.bt_index bt) lo hi ->
+    LsmV.Model.BlockIndex.btable_range_pulls bt lo hi code =
+    LsmV.Proofs.BlockIndex.dq_run code (table_range (LsmV.Proofs.BlockIndex.flat_of bt) lo hi).
+Proof. exact LsmV.Proofs.BlockIndex.btable_range_pulls_flat. Qed.
+Print Assumptions C03_table_iter_over_blocks.
